@@ -2,7 +2,8 @@
 # Runs every registered check of a tier and prints one line per property.
 T=${1:-quick}
 cd "$(dirname "$0")/.."
-for p in $(python3 -c "import json;print(' '.join(c['property_id'] for c in json.load(open('MANIFEST.json'))['checks']))"); do
+# IDS="C11 C12" restricts the run to those properties
+for p in ${IDS:-$(python3 -c "import json;print(' '.join(c['property_id'] for c in json.load(open('MANIFEST.json'))['checks']))")}; do
   s=$(date +%s)
   out=$(timeout 7200 bin/vcheck -tier $T $p 2>&1); rc=$?
   e=$(( $(date +%s) - s ))
